@@ -4,7 +4,7 @@
 # itself), runs the named checks against it, prints one verdict line per
 # property, and removes the change again.  Evidence goes to a scratch dir.
 here=$(cd "$(dirname "$0")/.." && pwd)
-patch=$1; shift
+patch=$(realpath "$1"); shift
 wt=${MUT_WT:-/tmp/wt/scratch-$$}
 git -C /repo worktree add --detach -q "$wt" HEAD || exit 2
 trap 'git -C /repo worktree remove --force "$wt" >/dev/null 2>&1; rm -rf "$out"' EXIT
